@@ -94,13 +94,13 @@ fn sample_oracle(c: &SampleCase) -> Verdict {
     let mut g = rng(seed);
     let mut evals = 0u64;
     for _ in 0..c.reps {
-        let mut d = vec![0u64; n * k];
+        let mut d: Vec<u64> = (0..(n * k) as u64).map(|i| u64::MAX - 5 * i).collect(); // used before: the sampler has to overwrite every word
         if let Err(p) = catch(|| sample::ternary(&mut g, &parms, &mut d)) { return fail(format!("sample::ternary panicked: {p} (moduli {:?})", c.moduli)); }
         for i in 0..n { match signed_consistent(&d, n, &c.moduli, i, 1) { Some(_) => {}, None => return fail(format!("ternary sample: coefficient {i} is not one small signed value in every RNS component: {:?} (moduli {:?})", (0..k).map(|j| d[j * n + i]).collect::<Vec<_>>(), c.moduli)) } }
-        let mut d = vec![0u64; n * k];
+        let mut d: Vec<u64> = (0..(n * k) as u64).map(|i| u64::MAX - 5 * i).collect(); // used before: the sampler has to overwrite every word
         if let Err(p) = catch(|| sample::centered_binomial(&mut g, &parms, &mut d)) { return fail_key("C16/cbd", format!("sample::centered_binomial panicked: {p} (moduli {:?})", c.moduli)); }
         for i in 0..n { match signed_consistent(&d, n, &c.moduli, i, 21) { Some(_) => {}, None => return fail_key("C16/cbd", format!("error sample: coefficient {i} is not one signed value of magnitude <= 21 in every RNS component: {:?} (moduli {:?})", (0..k).map(|j| d[j * n + i]).collect::<Vec<_>>(), c.moduli)) } }
-        let mut d = vec![0u64; n * k];
+        let mut d: Vec<u64> = (0..(n * k) as u64).map(|i| u64::MAX - 5 * i).collect(); // used before: the sampler has to overwrite every word
         if let Err(p) = catch(|| sample::uniform(&mut g, &parms, &mut d)) { return fail(format!("sample::uniform panicked: {p}")); }
         for j in 0..k { for i in 0..n { check!(d[j * n + i] < c.moduli[j], "uniform sample {} not below modulus {}", d[j * n + i], c.moduli[j]); } }
         evals += 3;
